@@ -46,9 +46,13 @@ BAD = ["sin", "control", "time", "param", "pow15", "expl_euler", "dc_deg3", "cvo
 
 def declare(case, with_inf=True):
     import rockit, casadi as ca
-    from rockit.sampling_method import UniformGrid, GeometricGrid, FreeGrid
+    from rockit.sampling_method import UniformGrid, GeometricGrid, FreeGrid, DensityGrid
     hz = case.get("horizon", "fixed")
     ocp = rockit.Ocp(t0=0.3, T=rockit.FreeTime(1.7) if hz == "Tfree" else 1.7)
+    if case.get("prevec"):
+        # a vector-valued state declared before the constrained ones (state-to-polynomial bookkeeping by entries, not by states)
+        w_ = ocp.state(2)
+        ocp.set_der(w_, ca.vertcat(-w_[0], w_[0] - 0.5 * w_[1]))
     x1 = ocp.state(); x2 = ocp.state(); u = ocp.control()
     ocp.set_der(x1, x2)
     ocp.set_der(x2, -x1 + u - 0.3 * x2 * x1)
@@ -76,7 +80,10 @@ def declare(case, with_inf=True):
             if case.get("inc") == "no_last": kw["include_last"] = False
             impose(ocp, case.get("con", "x1_le"), e, lb, ub, **kw)
     ocp.solver("ipopt", {"ipopt.print_level": 0, "print_time": False, "ipopt.sb": "yes"})
-    g = {"uniform": lambda: UniformGrid(), "geom": lambda: GeometricGrid(3), "free": lambda: FreeGrid(min=0.05, max=2.0)}[case["grid"]]()
+    def _dens():
+        tau = ca.MX.sym("tau")
+        return DensityGrid(1 + 2 * tau)           # intervals get shorter: every interval is longer than its successor
+    g = {"uniform": lambda: UniformGrid(), "geom": lambda: GeometricGrid(3), "free": lambda: FreeGrid(min=0.05, max=2.0), "dens": _dens}[case["grid"]]()
     meth = case["method"]
     N, M = case["N"], case["M"]
     if bad == "expl_euler":
@@ -110,6 +117,12 @@ def cases(tier):
                             if tier != "thorough" and N == 3 and M == 2 and g == "free":
                                 continue
                             out.append(dict(kind="sound", con=con, method=meth, N=N, M=M, grid=g, horizon=hz))
+    # a grid whose intervals shrink, and a vector state declared before the constrained states
+    for con in ("x1_le", "prod_le", "x1_between", "der_le"):
+        for meth in ("SS", "MS", "DC"):
+            for N, M in ((2, 1), (3, 2)):
+                out.append(dict(kind="sound", con=con, method=meth, N=N, M=M, grid="dens", horizon="fixed"))
+                out.append(dict(kind="sound", con=con, method=meth, N=N, M=M, grid="geom", horizon="fixed", prevec=True))
     # include_first / include_last exclude at most single points: the guarantee between grid points is the same
     for con in ("x1_le", "prod_le", "x1_between", "x1_gt"):
         for meth in ("SS", "MS", "DC"):
@@ -191,7 +204,7 @@ def true_slack(case, steps):
 
 def run_sound(case):
     import sys
-    tags = ["con=%s" % case["con"], "method=%s" % case["method"], "N=%d" % case["N"], "M=%d" % case["M"], "grid=%s" % case["grid"], "horizon=%s" % case["horizon"]] + (["inc=%s" % case["inc"]] if case.get("inc") else [])
+    tags = ["con=%s" % case["con"], "method=%s" % case["method"], "N=%d" % case["N"], "M=%d" % case["M"], "grid=%s" % case["grid"], "horizon=%s" % case["horizon"]] + (["inc=%s" % case["inc"]] if case.get("inc") else []) + (["prevec"] if case.get("prevec") else [])
     vios = []
     try:
         ocpA, sym = declare(case, True)
